@@ -46,6 +46,9 @@ def classify(c: dict, obs: str, detail: str) -> str | None:
             return "C19-F2"
     if fam == "fmm":
         i = c["inner"]
+        if c["kind"] in ("t1", "t2") and i is not None and c.get("xrank", c["rank"]) != c.get("yrank", c["rank"]) \
+                and ("transBatchA=1" in obs or "transBatchB=1" in obs):
+            return "C19-F15"
         if c["kind"] == "mt" and i is not None and (i["transA"] or 0) != (i["transB"] or 0) and fired(obs):
             return "C19-F3"
         if c["kind"] in ("t1", "t2") and i is not None and c["rank"] == 2 and c["perm"] == [0, 1] and fired(obs):
@@ -163,8 +166,23 @@ def run_case(c: dict, nrng, stats: Counter, numeric: bool = True, e2e: bool = Fa
         try:
             if hasattr(fam, "post"):
                 fam.post(model)
-            got = L.ort_run(L.to_proto(model), feeds)
+            fused_proto = L.to_proto(model)
+            got = L.ort_run(fused_proto, feeds)
             d = L.compare(ref, got, dt)
+            if d is not None and dt == "f16" and "shape" not in d and "count" not in d:
+                # float16: one ill-conditioned sample (e.g. LayerNorm over two nearly equal values) is not a
+                # defect; a changed computation fails on fresh inputs too.  Only a reproducible mismatch counts.
+                again = 0
+                for _ in range(3):
+                    f2 = fam.feeds(c, nrng)
+                    if hasattr(fam, "extra_feeds"):
+                        f2.update(fam.extra_feeds(c, mp))
+                    if L.compare(L.ort_run(mp, f2), L.ort_run(fused_proto, f2), dt) is not None:
+                        again += 1
+                stats["f16_retried"] += 1
+                if again < 2:
+                    stats["f16_ill_conditioned_sample"] += 1
+                    d = None
             out["res"] = "ok" if d is None else "FAIL:" + d
             stats["numeric_compared"] += 1
         except Exception as e:
@@ -315,7 +333,7 @@ def main(run: core.Run) -> None:
     t_impl = time.time()
     for k, c in enumerate(cases):
         try:
-            r = run_case(c, nrng, stats, numeric=True, e2e=(k % e2e_every == 0))
+            r = run_case(c, nrng, stats, numeric=True, e2e=(k % e2e_every == 0 or getattr(F.FAMILIES[c['fam']], 'always_e2e', False)))
         except Exception as e:
             stats[f"{c['fam']}:build_error"] += 1
             if stats[f"{c['fam']}:build_error"] <= 2:
